@@ -121,12 +121,15 @@ def d1_contiguity(ctx, RA, step, appenders):
     vfirst = [a for n, r, a in creates if r == 'VALUESDIR']
     ifirst = [a for n, r, a in creates if r == 'INDICESDIR']
     ok = False
-    if vfirst and ifirst and isinstance(ifirst[0], ast.Name):
-        for v, _ in defs_of(f.node, ifirst[0].id):
+    if vfirst and ifirst:
+        cands_ = [v for v, _ in defs_of(f.node, ifirst[0].id)] if isinstance(ifirst[0], ast.Name) else [ifirst[0]]
+        for v in cands_:
             try:
-                if isinstance(v, ast.List) and isinstance(v.elts[0], ast.List):
+                v = inline(f, v)
+                if isinstance(v, (ast.List, ast.Tuple)) and isinstance(v.elts[0], (ast.List, ast.Tuple)):
                     s, e = v.elts[0].elts
-                    ok = isinstance(s, ast.Constant) and s.value == 0 and norm(e) == f'len({norm(vfirst[0])})'
+                    vf = canon(f, vfirst[0])
+                    ok = isinstance(s, ast.Constant) and s.value == 0 and norm(e) in (f'len({vf})', f'{vf}.shape[0]')
             except Exception:
                 pass
     ctx.decide(ok, 'R-FLOW', 'D1', f, ifirst[0] if ifirst else None, 'first-row',
